@@ -19,6 +19,10 @@ import (
 type verifPruneCase struct {
 	SQL string `json:"sql"`
 	Now int64  `json:"now"` // microseconds
+	// when RelUnit is set the case is a direct call of evaluateRelativeTime(RelAmount, RelUnit, RelAdd)
+	RelAmount string `json:"rel_amount"`
+	RelUnit   string `json:"rel_unit"`
+	RelAdd    bool   `json:"rel_add"`
 }
 
 type verifPruneOut struct {
@@ -30,6 +34,8 @@ type verifPruneOut struct {
 	Hours   []string `json:"hours"`    // YYYY/MM/DD/HH, sorted
 	Days    []string `json:"days"`     // YYYY/MM/DD, sorted
 	Other   []string `json:"other"`    // paths of an unexpected shape
+	Rel     int64    `json:"rel"`      // evaluateRelativeTime result (microseconds)
+	RelErr  string   `json:"rel_err"`
 }
 
 func TestVerifPruner(t *testing.T) {
@@ -49,6 +55,16 @@ func TestVerifPruner(t *testing.T) {
 		VerifClockMicros = c.Now
 		o := &outs[i]
 		o.Hours, o.Days, o.Other = []string{}, []string{}, []string{}
+		if c.RelUnit != "" {
+			t, err := evaluateRelativeTime(c.RelAmount, c.RelUnit, c.RelAdd)
+			if err != nil {
+				o.RelErr = err.Error()
+			} else {
+				o.Rel = t.UnixMicro()
+			}
+			o.Nil, o.GenNil = true, true
+			continue
+		}
 		tr := p.ExtractTimeRange(c.SQL)
 		if tr == nil {
 			o.Nil, o.GenNil = true, true
